@@ -305,6 +305,15 @@ class Check:
             self.engine_reports.append(rep)
 
     # ---------------------------------------------------------------- verdict
+    def relevant(self, of, engine):
+        """does this oracle failure count for this property?  `also_reports` maps an engine name to the
+        foreign property ids whose failures, when raised by THAT engine, are violations of this property too
+        (e.g. wrong bytes on a dictionary frame are reported by the shared driver as C01/C06)."""
+        if of["property"] == self.pid:
+            return True
+        also = self.cfg.get("also_reports") or {}
+        return of["property"] in also.get(engine, [])
+
     def known(self):
         p = os.path.join(VERIF, "known_findings.json")
         if not os.path.exists(p):
@@ -320,7 +329,7 @@ class Check:
             if not meta:
                 continue
             for of in meta.get("oracle_failures", []):
-                if of["property"] != self.pid and of["property"] not in self.cfg.get("also_reports", []):
+                if not self.relevant(of, name):
                     continue
                 k = next((k for k in known if k["property"] == self.pid and re.fullmatch(k["signature"], of["signature"])), None)
                 if k:
@@ -353,7 +362,7 @@ class Check:
                 self.engine_reports.append(rep)
                 meta = rep.get("meta") or {}
                 for of in meta.get("oracle_failures", []):
-                    if of["property"] == self.pid:
+                    if self.relevant(of, eng["name"]):
                         found = True
             if found or k >= (3 if self.tier == "quick" else 20):
                 break
@@ -363,7 +372,7 @@ class Check:
             if "search_round" not in rep:
                 continue
             for of in (rep.get("meta") or {}).get("oracle_failures", []):
-                if of["property"] != self.pid:
+                if not self.relevant(of, rep["engine"]):
                     continue
                 if any(k_["property"] == self.pid and re.fullmatch(k_["signature"], of["signature"]) for k_ in known):
                     continue
